@@ -180,7 +180,7 @@ def gen(seed, run, tier='quick'):
     if rng.random() < 0.02:
         # a long-lived process: a few runs are several times longer than
         # the rest (bounded caches evict, counters grow)
-        n_ops = rng.randrange(150, 300)
+        n_ops = rng.randrange(100, 200)
     ops = []
     used_primes = set()
     last_upd = {}
@@ -422,8 +422,12 @@ def gen(seed, run, tier='quick'):
             # a feed that runs for a long time: hundreds of consecutive
             # periods, all currencies each time
             if convs[ci]['kind'] != 'none' and rng.random() < 0.4:
-                ops.append(['bulk', ci, rng.choice([60, 400, 900]),
-                            rng.randrange(1000)])
+                bulk = ['bulk', ci, rng.choice([60, 400, 900]),
+                        rng.randrange(1000)]
+                # (at most three per history: each costs seconds in the
+                # sweeps that follow)
+                if sum(1 for o_ in ops if o_[0] == 'bulk') < 3:
+                    ops.append(bulk)
         elif k == 'snapshot':
             # copy.deepcopy(converter): from now on two independent
             # converters with the same past
@@ -741,6 +745,8 @@ def execute(h):
             return dt.datetime.fromisoformat(x)
         raise core.HarnessError(f"validity {v}")
 
+    _rate_memo = {}
+
     def base_rate(ci, cur, d):
         """ExchangeRate base->cur the model selects, built by the library's
         own constructor from the selected spec."""
@@ -748,8 +754,15 @@ def execute(h):
         if spec is None:
             return None
         amt, um = spec
-        return ExchangeRate(convs[ci].base_currency, mk_um(um), curs[cur],
-                            mk_amount(amt))
+        # (ExchangeRates are immutable values: the model builds each one
+        # once per world)
+        key = (cfg['convs'][ci]['base'] % n_cur, cur, repr(amt), repr(um))
+        r = _rate_memo.get(key)
+        if r is None:
+            r = _rate_memo[key] = ExchangeRate(
+                convs[ci].base_currency, mk_um(um), curs[cur],
+                mk_amount(amt))
+        return r
 
     def expected_rate(ci, a, b, d, count=True):
         try:
